@@ -1,7 +1,7 @@
 (* C14 — the theorems about the Merge transition system, derived from the
    invariants of Proofs/Merge.v and Proofs/MergeLin.v; capability CAS; several
    tags as a product of independent copies. *)
-From Oras Require Import Base.Prelude Model.Referrers Proofs.Referrers Model.Merge Proofs.Merge Proofs.MergeLin.
+From Oras Require Import Base.Prelude Generated.GC14 Model.Referrers Proofs.Referrers Model.Merge Proofs.Merge Proofs.MergeLin.
 From Coq Require Import Lia.
 
 (* ---------- at most one main; Pool reference counting ---------- *)
@@ -477,4 +477,28 @@ Lemma sequential_listing_is_live cs : forall st,
 Proof.
   induction cs as [|c t IH]; intros st F T; simpl; auto.
   inversion F; subst. apply IH; auto. now apply seq_op_tracks.
+Qed.
+
+(* ---------- every detection path goes through the compare-and-swap ---------- *)
+
+(* regenerated from the Go sources (tools/gosrc2v kind c14_field_uses): Repository.referrersState
+   is only ever read with atomic.LoadInt32 and written by
+   atomic.CompareAndSwapInt32(&r.referrersState, referrersStateUnknown, _) *)
+Lemma capability_single_writer :
+  GC14.referrersState_other = 0%Z /\ (0 < GC14.referrersState_cas_from_unknown)%Z.
+Proof. split; [reflexivity|reflexivity]. Qed.
+
+(* hence, whatever pingReferrers / Referrers() / checkOCISubjectHeader / indexReferrersForPush
+   request and in whatever order their compare-and-swaps are linearised, the state follows
+   set_caps: it takes the first requested value and keeps it *)
+Lemma capability_all_paths :
+  GC14.referrersState_other = 0%Z /\
+  forall (requests : list bool),
+    match set_caps CapUnknown requests with
+    | [] => requests = []
+    | (s0, e0) :: rest => e0 = false /\ s0 <> CapUnknown /\ Forall (fun x => fst x = s0) rest
+    end.
+Proof.
+  split; [reflexivity|]. intros [|b l]; simpl; auto.
+  repeat split; [destruct b; discriminate|]. apply set_caps_monotone. destruct b; discriminate.
 Qed.
